@@ -148,4 +148,19 @@ CHECKS = {
                    thorough=dict(checks=600000, shards=16, timeout=3000))],
         assumptions=["removes with invalid TXT for a known service are not generated (neither provider produces them; the statement leaves them open)"],
     ),
+    "C19": dict(
+        level="exploration",
+        rule=("rapid-generated life-cycle scripts (1-25 events: daemon disconnect with/without immediate availability, availability flips, "
+              "Announce with 6 TXT variants, Unannounce, manual Shutdown, browse results add/remove at any time incl. during the outage, "
+              "virtual-time advances 100 ms .. 5 s) against the real AvahiProvider with a fake Avahi daemon that mirrors go-avahi's Server "
+              "(objects invalidated and Disconnected emitted on every connection loss, also on Shutdown()). Oracle: reference model "
+              "(desired TXT = latest Announce not followed by Unannounce; manual shutdown flag); whenever the daemon has been reachable "
+              "for > 2 virtual seconds: connected, exactly one live browser, the desired announcement present (exactly it on a fresh "
+              "connection), a probe service is reported; after Shutdown nothing is created again; Shutdown returns. non-trivial = a "
+              "disconnect with an API call or browse result inside the outage; distinct = hash of the script"),
+        runs=[dict(engine="mdnssim", test="TestC19", quick=dict(checks=20000, shards=4, timeout=600),
+                   thorough=dict(checks=600000, shards=16, timeout=3000))],
+        assumptions=["what a continuously connected real daemon does with a second entry group for the same service name cannot be established offline: "
+                     "for a re-announce without an intervening disconnect only the presence of the desired announcement is required"],
+    ),
 }
